@@ -8,7 +8,7 @@ from common import R, Rmat, Cx, fl, flmat, cfl, max_rel_err
 
 from common import wiring_pre_build as pre_build  # noqa: E402,F401
 
-LEAN_MODULES = ["PyomaVerif.Props.C05", "PyomaVerif.Mutants.C05", "PyomaVerif.Props.WiringRun"]
+LEAN_MODULES = ["PyomaVerif.Props.C05", "PyomaVerif.Props.C05Charpoly", "PyomaVerif.Mutants.C05", "PyomaVerif.Props.WiringRun"]
 THEOREMS = [
     # call-site wiring of the class layer, regenerated from /repo on every run (translate_wiring.py)
     "PV.WiringRun.C05_run_plscf",
@@ -32,6 +32,22 @@ THEOREMS = [
     "PV.C05.C05_table",
     "PV.C05.C05_table_iff",
     "PV.C05.modal_map",
+    # multiplicity half (Props/C05Charpoly.lean): charpoly of the companion as built = X^m * det A(X) / det A_p
+    "PV.C05.C05_charpoly_companion",
+    "PV.C05.C05_charpoly_rmfd2ac_layout",
+    "PV.C05.C05_charpoly_detA",
+    "PV.C05.C05_charpoly_detA_companion",
+    "PV.C05.C05_charpoly_HI",
+    "PV.C05.C05_charpoly_degree",
+    "PV.C05.C05_detA_degree",
+    "PV.C05.C05_detA_ne_zero",
+    "PV.C05.C05_eigenvalue_iff",
+    "PV.C05.C05_charpoly_roots",
+    "PV.C05.C05_rootMultiplicity",
+    "PV.C05.C05_rootMultiplicity_companion",
+    "PV.C05.C05_LO_zero_multiplicity",
+    "PV.C05.C05_card_roots",
+    "PV.C05.C05_rmfd2ac_charpoly",
     "PV.Mutants.C05.real_ok",
     "PV.Mutants.C05.forwardOrder_fails",
     "PV.Mutants.C05.dropMinus_fails",
@@ -124,7 +140,7 @@ def _corr_rmfd2ac(ctx, pl):
         l = rng.randint(1, 4)
         nA = rng.randint(1, 5)
         nB = nA if rng.random() < 0.8 else rng.randint(1, 5)
-        kind = rng.choice(["eye", "unimod", "float", "int", "singular"] if k % 7 == 0 else ["eye", "unimod", "float", "int"])
+        kind = rng.choice(["eye", "unimod", "float", "int", "singular"] if k % 7 == 0 else ["eye", "unimod", "float", "int", "near_eye"])
         if rng.random() < 0.5:
             Ad = g.integers(-4, 5, size=(nA, m, m)).astype(float)
             Bn = g.integers(-4, 5, size=(nB, l, m)).astype(float)
@@ -133,6 +149,11 @@ def _corr_rmfd2ac(ctx, pl):
             Bn = g.standard_normal((nB, l, m))
         if kind == "eye":
             Ad[-1] = np.eye(m)
+        elif kind == "near_eye":
+            # a leading coefficient close to, but not, the identity (a nearly self-reciprocal denominator with the
+            # low-order constraint): it must be divided out all the same
+            Ad[-1] = (np.eye(m) + 10.0 ** -rng.uniform(5.2, 9.0) * np.diag(g.standard_normal(m))
+                      + 10.0 ** -rng.uniform(8.5, 10.0) * g.standard_normal((m, m)))
         elif kind == "unimod":
             Ad[-1] = _unimodular(g, m)
         elif kind == "int":
@@ -726,6 +747,13 @@ def oracle(ctx, scale):
         if rng.random() < 0.4:  # the spectrum's amplitude is free: numerator far from unit size
             B = B * 10 ** rng.uniform(-8, 8)
             ctx.count("oracle_amplitude_scaled")
+        if sgn == -1 and rng.random() < 0.25:
+            # nearly self-reciprocal denominator: after the low-order normalisation (A_0 = I) the leading coefficient is
+            # within a few parts per million of the identity, not equal to it
+            A[n] = (np.eye(Nch) + np.diag(rng.choice([-1.0, 1.0]) * g.uniform(2e-6, 9e-6, Nch))) @ A[0]
+            ctx.count("oracle_near_self_reciprocal")
+            _judge(ctx, pl, A, B, dt, sgn, Nf, extra, "near-self-reciprocal")
+            continue
         _judge(ctx, pl, A, B, dt, sgn, Nf, extra, "random")
     # structured: scalar-diagonal denominators with prescribed roots (known stable / unstable split)
     for _ in range(ctx.n(80, 800) * scale):
@@ -783,7 +811,7 @@ def _class_case(ctx, pl, params=None):
     rng = ctx.rng
     if params is None:
         params = {
-            "seed": rng.getrandbits(32), "fs": rng.choice([10.0, 64.0, 200.0]), "nch": rng.randint(2, 3),
+            "seed": rng.getrandbits(32), "fs": rng.choice([10.0, 64.0, 200.0, 128.0, 60.0, 3.0, 51.2, 1000.0 / 7.0, 44100.0]), "nch": rng.randint(2, 3),
             "n": rng.randint(500, 900), "amp": 10 ** rng.uniform(-8, 8), "ordmax": rng.randint(3, 7),
             "nxseg": rng.choice([64, 100, 128]), "method_SD": rng.choice(["per", "cor"]), "pov": rng.choice([0.0, 0.5, 0.75]),
         }
